@@ -1,5 +1,6 @@
 import Thanos.Common.Parse
 import Thanos.Model.Split
+import Thanos.Model.CacheKey
 /-
   Line-protocol driver of the `frontend` family (C41 C42 C43 C44).
   One request per line, one answer per line; every line is self-contained.
@@ -9,6 +10,13 @@ import Thanos.Model.Split
     split.labels|split.series <start> <end> <intervalMs>   -> ok s:e,s:e,… | ok -
     split.nib    <t> <step> <intervalMs>             -> <int> | panic
     split.align  <start> <end> <step>                -> <start'> <end'> | panic
+
+  C43 ops (grammar in harness/cmd/frontend/c43.go):
+    key.range RANGE | key.labels LABELS | key.series SERIES       -> <hex key> | panic | invalid
+    key.pair.range RANGE "|" RANGE  (also .labels, .series, .cross LABELS "|" SERIES)
+                                                                  -> <hex key A> <hex key B> | panic | invalid
+    key.tenant <tenant>                                           -> ok | invalid
+    key.should <r|l|s> <dedup> <#storeMatchers> <disabled>        -> 0 | 1
 -/
 open Thanos Thanos.Parse
 
@@ -21,6 +29,122 @@ def showSplit : Split.Res (List (Int × Int)) → String
   | .ok l => "ok " ++ showPairs l
   | .panic => "panic"
   | .fuel => "fuel"
+
+
+/-! ### C43 -/
+section C43
+open CacheKey
+
+def pStr (t : String) : Option Str := (hexString? t).map String.toList
+
+def pStrList (sep : Char) (t : String) : Option (List Str) :=
+  (listOf sep t).mapM fun e => if e = "_" then some [] else pStr e
+
+def pBool (t : String) : Option Bool :=
+  if t = "0" then some false else if t = "1" then some true else none
+
+def pShard (t : String) : Option (Option ShardInfo) :=
+  if t = "-" then some none else
+  match splitChar '/' t with
+  | [a, b, c, d] => do
+    let total ← parseInt? a
+    let index ← parseInt? b
+    let by_ ← pBool c
+    let labels ← pStrList ';' d
+    pure (some { total, index, by_, labels })
+  | _ => none
+
+def pRange : List String → Option RangeReq
+  | [tn, q, st, step, split, msr, sh, lb, eng, pr, repl, an] => do
+    pure { tenant := ← pStr tn, query := ← pStr q, start := ← parseInt? st, step := ← parseInt? step,
+           splitMs := ← parseInt? split, msr := ← parseInt? msr, shard := ← pShard sh, lookback := ← parseInt? lb,
+           engine := ← pStr eng, partialResp := ← pBool pr, replicas := ← pStrList ',' repl, analyze := ← pBool an }
+  | _ => none
+
+def pLabels : List String → Option LabelsReq
+  | [tn, lb, _sels, text, st, split, pr] => do
+    pure { tenant := ← pStr tn, label := ← pStr lb, matchers := ← pStr text, start := ← parseInt? st,
+           splitMs := ← parseInt? split, partialResp := ← pBool pr }
+  | _ => none
+
+def pSeries : List String → Option SeriesReq
+  | [tn, _sels, text, st, split, pr, repl] => do
+    pure { tenant := ← pStr tn, matchers := ← pStr text, start := ← parseInt? st, splitMs := ← parseInt? split,
+           partialResp := ← pBool pr, replicas := ← pStrList ',' repl }
+  | _ => none
+
+/-- what resultsCache.Do would use as key: tenant resolver first, then GenerateCacheKey -/
+def keyAnswer (tenant : Str) (k : Option Str) : String :=
+  if !tenantAccepted tenant then "invalid" else
+  match k with
+  | none => "panic"
+  | some k => hexEncode (String.ofList k).toUTF8.toList
+
+def pairAnswer (a b : String) : String :=
+  if a = "panic" ∨ b = "panic" then "panic"
+  else if a = "invalid" ∨ b = "invalid" then "invalid"
+  else a ++ " " ++ b
+
+def splitBar (l : List String) : Option (List String × List String) :=
+  match l.span (· ≠ "|") with
+  | (a, _ :: b) => some (a, b)
+  | _ => none
+
+def handleC43 : List String → String
+  | "key.range" :: rest =>
+    match pRange rest with
+    | some r => keyAnswer r.tenant (rangeKey r)
+    | none => "bad-op"
+  | "key.labels" :: rest =>
+    match pLabels rest with
+    | some r => keyAnswer r.tenant (labelsKey r)
+    | none => "bad-op"
+  | "key.series" :: rest =>
+    match pSeries rest with
+    | some r => keyAnswer r.tenant (seriesKey r)
+    | none => "bad-op"
+  | "key.pair.range" :: rest =>
+    match splitBar rest with
+    | some (a, b) =>
+      match pRange a, pRange b with
+      | some a, some b => pairAnswer (keyAnswer a.tenant (rangeKey a)) (keyAnswer b.tenant (rangeKey b))
+      | _, _ => "bad-op"
+    | none => "bad-op"
+  | "key.pair.labels" :: rest =>
+    match splitBar rest with
+    | some (a, b) =>
+      match pLabels a, pLabels b with
+      | some a, some b => pairAnswer (keyAnswer a.tenant (labelsKey a)) (keyAnswer b.tenant (labelsKey b))
+      | _, _ => "bad-op"
+    | none => "bad-op"
+  | "key.pair.series" :: rest =>
+    match splitBar rest with
+    | some (a, b) =>
+      match pSeries a, pSeries b with
+      | some a, some b => pairAnswer (keyAnswer a.tenant (seriesKey a)) (keyAnswer b.tenant (seriesKey b))
+      | _, _ => "bad-op"
+    | none => "bad-op"
+  | "key.pair.cross" :: rest =>
+    match splitBar rest with
+    | some (a, b) =>
+      match pLabels a, pSeries b with
+      | some a, some b => pairAnswer (keyAnswer a.tenant (labelsKey a)) (keyAnswer b.tenant (seriesKey b))
+      | _, _ => "bad-op"
+    | none => "bad-op"
+  | ["key.tenant", t] =>
+    match pStr t with
+    | some t => if tenantAccepted t then "ok" else "invalid"
+    | none => "bad-op"
+  | ["key.should", kind, d, n, dis] =>
+    match pBool d, parseNat? n, pBool dis with
+    | some d, some n, some dis =>
+      if kind = "r" ∨ kind = "s" then (if shouldCache (some d) n dis then "1" else "0")
+      else if kind = "l" then (if shouldCache none n dis then "1" else "0")
+      else "bad-op"
+    | _, _, _ => "bad-op"
+  | _ => "bad-op"
+
+end C43
 
 def handle3 (op a c d : String) : String :=
   if op = "split.nib" then
@@ -53,6 +177,6 @@ def handle : List String → String
         if dur ≤ 0 then "bad-op" else showSplit (Split.splitLabels true start stop dur)
       | _, _, _ => "bad-op"
     else handle3 op a b d
-  | _ => "bad-op"
+  | l => handleC43 l
 
 end Thanos.Driver.Frontend
